@@ -1,2 +1,3 @@
-/- placeholder driver for C04: replaced when the check for C04 is built -/
-def main : IO Unit := IO.println "not-built"
+import CashewsVerif.Driver.Tx
+/- Driver for C04: the same executable logic as driver_c03 (one shared model). -/
+def main : IO Unit := CashewsVerif.TxDriver.run
